@@ -18,7 +18,7 @@ func TestVerifC18Alert(t *testing.T) {
 		return d
 	}
 	c := &v.Codec{
-		Name: "alert", ID: 3, Small: true,
+		Name: "alert", ID: 3, Small: true, Tiny: true,
 		Decode: func(in []byte) (*v.Decoded, error) {
 			var a Alert
 			if err := a.Unmarshal(in); err != nil {
